@@ -65,7 +65,10 @@ fn main() {
     let thorough = !ctx.quick();
     ctx.set_rule(
         "alphabet: 9 RRset kinds (A x1/x2/x3, TXT, MX, NS, CNAME, wildcard A, apex TXT) x 5 algorithms (ED25519, ECDSAP256, ECDSAP384, RSASHA256, \
-         RSASHA512) x key layouts (126 base cases), each signed by hickory's own signer; per base \
+         RSASHA512) x key layouts (126 base cases) + 9 RRset kinds with a DOMAIN NAME INSIDE THE RDATA, letters of both cases in it - on the RFC 4034 6.2 item 3 list \
+         (SOA, SRV, PTR, NAPTR; also MX, NS, CNAME above: names lower-cased in the signed data, a case flip is the same RRset, Secure allowed) and off it (NSEC next name, SVCB / HTTPS TargetName, \
+         ANAME, an unknown type carrying name-like octets: case kept, RFC 6840 5.1 / RFC 3597 7, a flipped case bit is ANOTHER RRset) - Ed25519, single key [thorough: + KSK/ZSK]; for these EVERY single-bit flip of the \
+         answer response, i.e. of every RDATA octet of every record incl. the 0x20 bit of the letters of embedded names, in both tiers. Each signed by hickory's own signer; per base \
          [quick: the Ed25519 bases in layouts L1, L2, the A x1 single-key base of every algorithm, the P-256 wildcard bases] EVERY single-bit flip of the answer response and of the DNSKEY response (whole message), ~150 single-field \
          replacements / re-made RRSIGs (type covered, labels 0..n+1, original TTL, key tag, algorithm, signer name, other \
          keys: other ZSK, no-ZONE key, revoked key, injected attacker key, sibling-zone key) / records added-removed / \
@@ -91,7 +94,7 @@ fn main() {
          honest ; P, honest-with-every-record-twice ; P, P ; honest ; P, honest ; P ; P, honest ; P ; honest, honest ; P via a clone \
          [quick: multiset - first three shapes for every base, all for the core bases; other families - honest ; P for every base (several-RRSIG: core bases)] \
          and the multiset family also under the 13 handle configurations [quick: 4 Ed25519 bases]. Oracle: only-if acceptance predicate \
-         (12 clauses, refpred.rs), applied PER RECORD to the RRset (same owner, CLASS, type) the returned record is a member of, on the mutated bytes with vref::sigref + ring at the time of EACH validate; TTL of Secure \
+         (12 clauses, refpred.rs), applied PER RECORD of the answer AND authority sections to the RRset (same section, owner, CLASS, type) the returned record is a member of, on the mutated bytes with vref::sigref + ring at the time of EACH validate; TTL of Secure \
          records <= expiration - now. A verdict for answer content (records + RRSIGs) that was returned Secure earlier in the same history may rest on the \
          DNSKEY response presented THEN (judged at the time of THIS validate). Differential side: every validate step after the first is also given to a \
          FRESH handle (same configuration, same time); Secure only on the warm handle while the reference cannot decide is a violation, the other \
@@ -111,6 +114,13 @@ fn main() {
             for layout in gen::layouts_for(alg) {
                 bases.push(gen::base(kind, alg, layout));
             }
+        }
+    }
+    // RRset kinds with a domain name inside the RDATA (on and off the RFC 4034 6.2 list): Ed25519,
+    // single key in z. and KSK+ZSK in the root zone
+    for kind in gen::name_kinds() {
+        for layout in if thorough { vec!["L1", "L2"] } else { vec!["L1"] } {
+            bases.push(gen::base(kind, hickory_proto::dnssec::Algorithm::ED25519, layout));
         }
     }
     ctx.set("base_cases", json!(bases.len()));
@@ -144,7 +154,12 @@ fn main() {
         // wildcard bases; thorough: all bases
         let l12 = b.name.ends_with("/L1") || b.name.ends_with("/L2");
         let core = (b.name.contains("ED25519") && (l12 || b.name.starts_with("A1/"))) || (b.name.starts_with("A1/") && b.name.ends_with("/L1")) || (b.name.starts_with("WILDA/") && l12 && b.name.contains("ECDSAP256"));
-        if thorough || core {
+        let name_kind = gen::name_kinds().iter().any(|k| b.name.starts_with(&format!("{k}/")));
+        if name_kind {
+            // every single-bit flip of the answer response - every RDATA octet of every record,
+            // incl. the 0x20 bit of the letters inside embedded names - in both tiers
+            v.push(Block::Flip(FlipBlock::with_targets(b, thorough)));
+        } else if thorough || core {
             v.push(Block::Flip(FlipBlock::new(b)));
         }
         use std::sync::Arc;
@@ -164,9 +179,15 @@ fn main() {
         // families: honest ; P (quick), every shape (thorough).
         let dflt = vec![scen::HandleCfg::default()];
         let all_shapes = vec![WarmShape::HP, WarmShape::DP, WarmShape::PHP, WarmShape::HPP, WarmShape::HPH, WarmShape::HPclone];
-        // multiset family: quick - honest ; P, honest-twice ; P and P ; honest ; P for every base, the
-        // other shapes for the core bases; thorough - every shape for every base
-        let shapes = if thorough || core { all_shapes.clone() } else { vec![WarmShape::HP, WarmShape::DP, WarmShape::PHP] };
+        // multiset family: quick - honest ; P and honest-twice ; P for every base, + P ; honest ; P and
+        // honest ; P ; P for the core bases; thorough - every shape for every base
+        let shapes = if thorough {
+            all_shapes.clone()
+        } else if core {
+            vec![WarmShape::HP, WarmShape::DP, WarmShape::PHP, WarmShape::HPP]
+        } else {
+            vec![WarmShape::HP, WarmShape::DP]
+        };
         v.push(Block::Warm(WarmBlock::new(b, mset.clone(), shapes, dflt.clone())));
         // the other content families: quick - honest ; P for every base (several-RRSIG family: core
         // bases), plus honest-twice ; P for the core bases; thorough - every shape for every base
@@ -174,9 +195,9 @@ fn main() {
             let shapes = if thorough {
                 // (the several-RRSIG family is the largest one: three shapes)
                 if every_base { all_shapes.clone() } else { vec![WarmShape::HP, WarmShape::DP, WarmShape::PHP] }
-            } else if core {
+            } else if core && every_base {
                 vec![WarmShape::HP, WarmShape::DP]
-            } else if every_base {
+            } else if core || every_base {
                 vec![WarmShape::HP]
             } else {
                 continue;
@@ -210,7 +231,8 @@ fn main() {
         hist.push(("WILDA", hickory_proto::dnssec::Algorithm::ED25519, "L1", false));
     }
     for (kind, alg, layout, narrow) in hist {
-        blocks.push(Block::History(HistoryBlock::new(&gen::base(kind, alg, layout), depth, narrow)));
+        // (quick: the fifth world - a forged record served twice - only in the configuration blocks below)
+        blocks.push(Block::History(HistoryBlock::new(&gen::base(kind, alg, layout), depth, narrow, thorough)));
     }
     // the handle CONFIGURATION as a dimension of the histories: every configuration x all op
     // sequences of length 3 (quick) / 4 (thorough), single-key and KSK+ZSK layouts
@@ -218,7 +240,7 @@ fn main() {
     ctx.set("handle_configurations", json!(cfgs.iter().map(|c| c.tag()).collect::<Vec<_>>()));
     for cfg in &cfgs {
         for (layout, narrow) in [("L1", false), ("L2", true)] {
-            blocks.push(Block::History(HistoryBlock::new(&gen::base("A1", hickory_proto::dnssec::Algorithm::ED25519, layout), depth - 1, narrow).with_cfg(cfg.clone())));
+            blocks.push(Block::History(HistoryBlock::new(&gen::base("A1", hickory_proto::dnssec::Algorithm::ED25519, layout), depth - 1, narrow, true).with_cfg(cfg.clone())));
         }
     }
 
